@@ -41,6 +41,7 @@ type Case struct {
 	Hits   []int          `json:"hits"`  // selectors of crash points to replay (quick)
 	After  []projsim.Op   `json:"after"` // further operations before the final build
 	Only   *Hit           `json:"only,omitempty"` // replay files: exactly this crash point
+	Forced bool           `json:"forced,omitempty"` // the faulty build is a forced one (build --always)
 }
 
 type Hit struct {
@@ -213,9 +214,9 @@ func exec(c Case) (v ev.Verdict) {
 		cl := m.Closure(id)
 		ft := cl[c.FailT%len(cl)]
 		sim.SetFail(m.Targets[ft].Name(), true)
-		res := sim.Build(projsim.BuildReq{Label: label})
+		res := sim.Build(projsim.BuildReq{Label: label, Always: c.Forced})
 		sim.ClearFails()
-		where := fmt.Sprintf("body of %s fails in build of %s", m.Label(ft), label)
+		where := fmt.Sprintf("body of %s fails in build of %s (forced=%v)", m.Label(ft), label, c.Forced)
 		if res.Panic != "" {
 			sim.Close()
 			return ev.Failf("panic", "%s: panic %s", where, res.Panic)
@@ -248,7 +249,7 @@ func exec(c Case) (v ev.Verdict) {
 	if err != nil {
 		return ev.Verdict{Skip: "clone"}
 	}
-	cnt := counter.ChildBuild(projsim.BuildReq{Label: label, CountHits: true})
+	cnt := counter.ChildBuild(projsim.BuildReq{Label: label, CountHits: true, Always: c.Forced})
 	counter.Close()
 	if cnt.ExitCode != 0 || !cnt.OK() {
 		return ev.Failf("counting-run-failed", "the un-faulted counting run of %s failed: exit=%d load=%q run=%q %s", label, cnt.ExitCode, cnt.LoadErr, cnt.RunErr, cnt.Stderr)
@@ -297,9 +298,9 @@ func exec(c Case) (v ev.Verdict) {
 		if err != nil {
 			return ev.Verdict{Skip: "clone"}
 		}
-		res := sim.ChildBuild(projsim.BuildReq{Label: label, CrashSite: h.Site, CrashLabel: h.Label, CrashHit: h.N})
-		where := fmt.Sprintf("crash at %s(%s)#%d in build of %s", h.Site, h.Label, h.N, label)
-		sub := Case{M: c.M, Edits: c.Edits, FailT: -1, After: c.After, Only: &h}
+		res := sim.ChildBuild(projsim.BuildReq{Label: label, CrashSite: h.Site, CrashLabel: h.Label, CrashHit: h.N, Always: c.Forced})
+		where := fmt.Sprintf("crash at %s(%s)#%d in build of %s (forced=%v)", h.Site, h.Label, h.N, label, c.Forced)
+		sub := Case{M: c.M, Edits: c.Edits, FailT: -1, After: c.After, Only: &h, Forced: c.Forced}
 		if !res.Crashed {
 			// the point was not reached in this run (schedule-dependent ordering): not a fault
 			run.Class("crash-point-not-reached", 1)
@@ -351,6 +352,10 @@ func gen(t *rapid.T) Case {
 		c.FailT = rapid.IntRange(0, 7).Draw(t, "failt")
 	}
 	c.Hits = rapid.SliceOfN(rapid.IntRange(0, 199), 4, 6).Draw(t, "hits")
+	c.Forced = rapid.IntRange(0, 3).Draw(t, "forced") == 3
+	if c.Forced && rapid.Bool().Draw(t, "noedits") {
+		c.Edits = nil // a forced build of an unchanged tree: the option is the only reason to run
+	}
 	na := rapid.IntRange(0, 3).Draw(t, "nafter")
 	for i := 0; i < na; i++ {
 		if rapid.Bool().Draw(t, "afteredit") {
